@@ -12,7 +12,6 @@ import (
 	"encoding/json"
 	"fmt"
 	"os"
-	"path/filepath"
 	"runtime/debug"
 	"sort"
 	"strings"
@@ -135,7 +134,11 @@ func parse(path string) (m *model.BinaryModel, perr string, pan string) {
 
 func runGen(req *Req, tmp string) *Resp {
 	resp := &Resp{ID: req.ID}
-	path := filepath.Join(tmp, "input.dsl")
+	// The compiler is given the same relative path in every worker and in the
+	// CLI worlds ("in.dsl", cwd = a private directory), so that a change which
+	// records the path as given cannot look like nondeterminism.
+	_ = tmp
+	path := "in.dsl"
 	if err := os.WriteFile(path, req.DSL, 0o644); err != nil {
 		resp.ParseErr = "verifsim: " + err.Error()
 		return resp
@@ -251,6 +254,10 @@ func main() {
 		os.Exit(2)
 	}
 	defer os.RemoveAll(tmp)
+	if err := os.Chdir(tmp); err != nil {
+		fmt.Fprintln(os.Stderr, "verifsim:", err)
+		os.Exit(2)
+	}
 	in := bufio.NewReaderSize(os.Stdin, 1<<20)
 	w := bufio.NewWriterSize(proto, 1<<20)
 	enc := json.NewEncoder(w)
